@@ -5,9 +5,28 @@
    FULL STATEMENT OF THE PROPERTY (REFUTED on the current tree, see zix_normal_refuted_A..D):
      forall s, peq (zix_normal s) (std_normal s) /\ is_normal_form (zix_normal s) = true.       *)
 From Coq Require Import ZArith List Bool.
-From Zix Require Import PathNormSpec PathNormModel PathNormProofs.
+From Zix Require Import PathNormSpec PathNormModel PathNormProofsSpec PathNormProofs.
 Import ListNotations.
 Local Open Scope Z_scope.
+
+(* ---- the spec itself: std_normal produces normal forms, is idempotent, and leaves every
+        normal form unchanged (as a path) -------------------------------------------------- *)
+
+Theorem std_normal_is_normal_form : forall s, is_normal_form (std_normal s) = true.
+Proof. exact std_normal_nf. Qed.
+Print Assumptions std_normal_is_normal_form.
+
+Theorem std_normal_idempotent : forall s, std_normal (std_normal s) = std_normal s.
+Proof. exact std_normal_idem. Qed.
+Print Assumptions std_normal_idempotent.
+
+Theorem normal_form_fixed_point : forall s, is_normal_form s = true -> peq (std_normal s) s.
+Proof. exact std_normal_fixed. Qed.
+Print Assumptions normal_form_fixed_point.
+
+(* hypotheses are satisfiable on a non-trivial string: "../a/b/" is a normal form *)
+Example normal_form_example : is_normal_form [DOT; DOT; SEP; 97; SEP; 98; SEP] = true.
+Proof. reflexivity. Qed.
 
 (* ---- refutations: one witness in each class (and in no other class) ------------------ *)
 
